@@ -369,11 +369,15 @@ def local_observers(rng, c, n):
     for _ in range(n):
         pts.append(("generic", [rnd(rng, -2.5, 2.5) for _ in range(3)]))
     off = [1e-4, -1e-4, 1e-7, -1e-7, 0.0]
+    off2 = [1e-5, -1e-5, 1e-6, -1e-6, 1e-7, -1e-7]      # both coordinates of an edge / rim displaced
     if cls == "Cuboid":
         a, b, cc = [d / 2 for d in c["dim"]]
         for o in off:
             pts.append(("near-face", [a * (1 + o), 0.3 * b, -0.2 * cc]))
             pts.append(("near-edge", [a * (1 + o), b * (1 + o), 0.1 * cc]))
+        for o in off2:
+            pts.append(("near-edge", [0.2 * a, b * (1 + o), -cc * (1 + o)]))
+            pts.append(("near-corner", [a * (1 + o), b * (1 + o), cc * (1 + o)]))
         pts += [("corner", [a, b, cc]), ("center", [0, 0, 0]), ("edge-extension", [a, b, 2 * cc])]
     elif cls in ("Cylinder", "CylinderSegment"):
         if cls == "Cylinder":
@@ -389,11 +393,15 @@ def local_observers(rng, c, n):
                 pts.append(("near-inner-hull", [r1 * (1 + o) * math.cos(phi), r1 * (1 + o) * math.sin(phi), -0.1 * h]))
                 pa = math.radians(c["dim"][3]) + o
                 pts.append(("near-phi-face", [(r1 + r2) / 2 * math.cos(pa), (r1 + r2) / 2 * math.sin(pa), 0.05 * h]))
+        for o in off2:      # rim: within o (relative) of the hull AND of a base plane
+            for rr in ([r2] if cls == "Cylinder" else [r1, r2]):
+                pts.append(("near-rim", [rr * (1 + o) * math.cos(phi), rr * (1 + o) * math.sin(phi), h / 2 * (1 + o)]))
+                pts.append(("near-rim", [rr * (1 + o) * math.cos(phi), rr * (1 + o) * math.sin(phi), -h / 2 * (1 - o)]))
         pts += [("axis", [0, 0, 0.3 * h]), ("axis-far", [0, 0, 3 * h]),
                 ("inside", [(r1 + r2) / 2 * math.cos(phi), (r1 + r2) / 2 * math.sin(phi), 0.0])]
     elif cls == "Sphere":
         r = c["dim"] / 2
-        for o in off:
+        for o in off + off2:
             pts.append(("near-surface", [r * (1 + o) * 0.6, r * (1 + o) * 0.0, r * (1 + o) * 0.8]))
         pts.append(("center", [0, 0, 0]))
     elif cls in ("Tetrahedron", "Triangle", "TriangularMesh"):
@@ -671,6 +679,31 @@ def search(ctx, n_cfg, n_obs, scales, excitations):
                 report(ctx, c, obs, fails)
 
 
+def regen_and_build(ctx):
+    """regen + build, repeated when another process (a check against another VERIF_REPO) rewrote
+    coq/Gen/GenTol.v in between: the proofs must have been checked against THIS tree's translation"""
+    from translate import GENERATORS
+    path = os.path.join(COQ, "Gen", "GenTol.v")
+    for attempt in range(4):
+        snap = (list(ctx.broken), ctx.obligations, ctx.discharged, list(ctx.theorems), dict(ctx.assumptions))
+        ok = ctx.regen(["GenTol"])
+        built = ctx.build_props(timeout=1200) and ok
+        if not ok:
+            return ok, built
+        try:
+            same = open(path).read() == GENERATORS["GenTol"](REPO)
+        except Exception:   # pylint: disable=broad-except
+            same = False
+        if same:
+            return ok, built
+        ctx.log("Gen/GenTol.v was rewritten by another process during the build: repeating regen + build")
+        ctx.broken[:], ctx.obligations, ctx.discharged = snap[0], snap[1], snap[2]
+        ctx.theorems[:] = snap[3]
+        ctx.assumptions = snap[4]
+    ctx.add_broken("broken-translator", "GenTol", "Gen/GenTol.v kept being rewritten by other processes during the build")
+    return False, False
+
+
 def run(ctx):
     ctx.extra["rule"] = ("one configuration per class (random dimensions, pose, excitation; generic and special "
                          "observers: near faces/edges/edge extensions/axis/centre at relative offsets 0, 1e-7, 1e-4) "
@@ -685,14 +718,12 @@ def run(ctx):
         "Dim.v soundness is over the reals with partial semantics; binary64 rounding, underflow and overflow are "
         "searched, not proved",
     ]
-    ok = ctx.regen(["GenTol"])
-    built = ctx.build_props(timeout=1200) and ok
+    ok, built = regen_and_build(ctx)
     if ctx.tier == "thorough" and built:
         ctx.coqchk("MV.Props.C12")
     ctx.partial += ["C12_masks_scale_invariant_partial", "C12_core_degree_partial", "C12_call_arguments_partial"]
-    ctx.refuted += ["C12_lines_end_area_eps_refuted", "C12_lines_end_coincide_eps_refuted",
-                    "C12_cylinder_segment_margin_refuted", "C12_cylinder_segment_close_refuted",
-                    "C12_determine_cases_close_refuted", "C12_ray_start_refuted"]
+    ctx.refuted += ["C12_cylinder_segment_margin_refuted", "C12_cylinder_segment_close_refuted",
+                    "C12_determine_cases_close_refuted"]
 
     table = exclusion_table()
     active = run_guarded(ctx, lambda: active_exclusions(ctx, built), "C12 active exclusions") if ok else None
